@@ -9,7 +9,7 @@ import GoIpa.Tie.FrInverse
 import GoIpa.Tie.FrMiscModel
 import GoIpa.Lemmas.InverseProof
 namespace GoIpa.Tie.FrInverse
-open GoIpa GoIpa.Limbs GoIpa.Cios GoIpa.Gen.FrInverse GoIpa.Tie.FrCodec GoIpa.Tie.FrMisc
+open GoIpa GoIpa.Limbs GoIpa.Cios GoIpa.Gen.FrInverse GoIpa.Gen.FrMisc GoIpa.Tie.FrCodec GoIpa.Tie.FrMisc
 
 theorem R256_eq : Cios.R256 = FrInv.W256 := by decide
 
@@ -36,6 +36,43 @@ theorem inverse_value (x : L4) (hx : x.ok) (hxr : x.val < R) (h0 : x.val ≠ 0) 
   unfold FrInv.inverseValue
   simp only
   rw [← hxv, ← hof]
+  rfl
+
+/-- `Inverse` with its prologue `if x.IsZero() { z.SetZero(); return z }` -/
+def goInverse (x : L4) : L4 :=
+  if go_IsZero x = true then ⟨0, 0, 0, 0⟩ else goLoop (R + x.val) invInitU x ⟨0, 0, 0, 0⟩ invInitS
+
+theorem fr_inv_zero : (0 : Fr)⁻¹ = 0 := by
+  rw [← FrInv.inverseValue_eq_inv, FrInv.inverseValue_zero]
+
+theorem val_ne_zero (x : L4) (hx : x.ok) (h : x ≠ ⟨0, 0, 0, 0⟩) : x.val ≠ 0 := by
+  intro hv
+  apply h
+  exact val_inj x ⟨0, 0, 0, 0⟩ hx zero_repr.2.2 (by rw [hv]; rfl)
+
+/-- **`Inverse` (whole function over the translated pieces): the field inverse, `Inverse(0) = 0`**, and the
+result is fully reduced -/
+theorem goInverse_value (x : L4) (hx : x.ok) (hxr : x.val < R) :
+    valOf (goInverse x) = (valOf x)⁻¹ ∧ (goInverse x).ok ∧ (goInverse x).val < R := by
+  unfold goInverse
+  by_cases hz : go_IsZero x = true
+  · rw [if_pos hz]
+    have : x = ⟨0, 0, 0, 0⟩ := (isZero_iff x).1 hz
+    subst this
+    exact ⟨by rw [valOf_zero, fr_inv_zero], zero_repr.2.2, zero_repr.2.1⟩
+  · rw [if_neg hz]
+    have hne : x ≠ ⟨0, 0, 0, 0⟩ := fun h => hz ((isZero_iff x).2 h)
+    have h0 := val_ne_zero x hx hne
+    obtain ⟨ok, e⟩ := inverse_pieces_spec x hx h0
+    refine ⟨inverse_value x hx hxr h0, ok, ?_⟩
+    rw [e]
+    exact (FrInv.inverseMont_spec x.val (Nat.pos_of_ne_zero h0) hxr).1
+
+/-- **`Div`** (`yInv.Inverse(y); z.Mul(x, &yInv)`, pinned) over the translated pieces is division in the field -/
+theorem div_value (x y : L4) (hx : x.ok) (hy : y.ok) (hyr : y.val < R) :
+    valOf (mulG x (goInverse y)) = valOf x / valOf y := by
+  obtain ⟨e, ok, lt⟩ := goInverse_value y hy hyr
+  rw [valOf_mul x _ hx ok lt, e]
   rfl
 
 end GoIpa.Tie.FrInverse
